@@ -1645,7 +1645,7 @@ class _AssociationList(_AssociationSingleItem[_T], MutableSequence[_T]):
         # is more plausibly useful than copying the backing objects.
         if not isinstance(n, int):
             raise NotImplementedError()
-        if n == 0:
+        if n <= 0:
             self.clear()
         elif n > 1:
             self.extend(list(self) * (n - 1))
